@@ -48,6 +48,12 @@ def run(ctx: Ctx):
     from .common import float64_extractors
 
     float64_extractors(ctx)
+    from .common import no_shared_writes
+
+    # the payload arrays (Cube.counts / .means / ...) are cached and handed out by reference: the layers that receive them
+    # - the cube-measure classes and the smoother - write to nothing they did not create ("Owned" = the response copy
+    # that Cube itself made and pads before anything is read from it)
+    no_shared_writes(ctx, "payload-not-written", shorts=("cube.py", "matrix/cubemeasure.py", "stripe/cubemeasure.py", "smoothing.py"), accept=("Fresh", "Self", "Owned"))
 
 
 # --------------------------------------------------------------------------- 1
